@@ -76,4 +76,22 @@ def handleALog (l : Line) : List Verdict :=
     pure (verdictsOf diffs viol)
   r.getD [Verdict.bad "alog"]
 
+/-- the decision is a function of (patterns, path) alone (`Ww.Model.needsLogin` has no state): a long-lived instance must answer like a fresh one -/
+def handleCacheSound (l : Line) : List Verdict :=
+  let r : Option (List Verdict) := do
+    let pats := (← l.strs? "pats").map String.toList
+    let n ← l.nat? "n"
+    let mism ← l.nat? "mismatches"
+    let path ← l.chars? "path"
+    let got ← l.bool? "got"
+    let fresh ← l.bool? "fresh"
+    if mism == 0 then pure [Verdict.ok] else
+    let model := needsLogin true (normPatterns pats) path false
+    let viol : List (String × String) :=
+      if !got && model then [("C12.forwarded_unmatched", s!"after a long sequence of other requests (of {n}) the path {String.ofList path} passes WITHOUT login although it matches no ignore pattern; a fresh instance answers needsLogin={fresh}: the memoised decision of another path was served")]
+      else if got && !model then [("C12.ignored_path_blocked", s!"after a long sequence of other requests the ignored path {String.ofList path} demands login; a fresh instance answers needsLogin={fresh}")]
+      else []
+    pure (verdictsOf [s!"{mism} answers of a long-lived instance differ from the stateless decision, first: {String.ofList path} impl={got} model={model}"] viol)
+  r.getD [Verdict.bad "cachesound"]
+
 end Ww.Driver
